@@ -2,6 +2,7 @@ import GrcovModel.Drv.Merge
 import GrcovModel.Drv.Lcov
 import GrcovModel.Drv.Pipeline
 import GrcovModel.Drv.Confine
+import GrcovModel.Drv.LlvmTools
 open Grcov.Drv
 
 def step (line : String) : String :=
@@ -13,6 +14,7 @@ def step (line : String) : String :=
   | "pipe.replay" :: args => handlePipeReplay args
   | "pipe.stuck" :: args => handlePipeStuck args
   | "confine.enclosed" :: args => handleEnclosed args
+  | "llvm.model" :: args => handleLlvmModel args
   | _ => "bad-op"
 
 partial def loop (h : IO.FS.Stream) (out : IO.FS.Stream) : IO Unit := do
